@@ -181,6 +181,8 @@ type c20Op struct {
 
 type c20Hist struct {
 	Ops []c20Op `json:"ops"`
+	// Listeners: Serve is given that many more (idle) listeners, around the one in use
+	Listeners int `json:"listeners,omitempty"`
 }
 
 type c20Model struct {
@@ -365,6 +367,7 @@ func c20HistProp(t *testing.T, r *hx.Run) func(h c20Hist) hx.Verdict {
 						continue
 					}
 					phase = true
+					w.ExtraListeners(h.Listeners)
 					w.Serve()
 					w.Settle()
 					m.serving = true
@@ -414,6 +417,7 @@ func c20HistProp(t *testing.T, r *hx.Run) func(h c20Hist) hx.Verdict {
 
 func genC20Hist(rt *rapid.T) c20Hist {
 	var h c20Hist
+	h.Listeners = pick(rt, "listeners", 0, 0, 1, 2)
 	n := rapid.IntRange(3, 24).Draw(rt, "nops")
 	for i := 0; i < n; i++ {
 		op := c20Op{Op: pick(rt, "op", "add", "add", "add", "del", "del", "get", "list", "serve", "close")}
